@@ -239,6 +239,7 @@ type txInfo struct {
 	Tx     *types.Transaction
 	Sender common.Address
 	Desc   string
+	pd     pending // what the generator wants to learn from the outcome
 }
 
 func kindName(t uint16) string {
@@ -411,7 +412,7 @@ func burnsOf(tr *trace, pre []acct) *big.Int {
 func runC15(c *hx.Ctx) error {
 	defer os.RemoveAll("./testdata")
 	defer os.RemoveAll("./testdata2")
-	c.Rep.Rule = "per case a real 100+ identity chain; generated deploy/call/terminate (+funding sends) over all 5 embedded contract types (valid lifecycles and arbitrary methods / argument vectors) and the 5 bundled wasm contracts (cross-contract calls, sub-deployments), arbitrary maxFee (gas limits incl. too small), pay amounts, tips; shadow mode (two check states, untouched Run vs recording Run), chain mode (single-tx blocks through pool/propose/add), fuzz mode (synthetic call traces on the real EnvImp / WasmEnv objects), congest mode (fee per gas driven above 2e16 by real full blocks, then calls whose maxFee leaves just under one gas unit)"
+	c.Rep.Rule = "per case a real 100+ identity chain; generated deploy/call/terminate (+funding sends) over all 5 embedded contract types (valid lifecycles and arbitrary methods / argument vectors) and the 5 bundled wasm contracts (cross-contract calls, sub-deployments), arbitrary maxFee (gas limits incl. too small), pay amounts, tips; shadow mode (two check states, untouched Run vs recording Run), chain mode (single-tx blocks through pool/propose/add), fuzz mode (synthetic call traces on the real EnvImp / WasmEnv objects), block mode (2-5 transactions through ONE shared VM as processTxs does, every prefix compared with a fresh VM per transaction), congest mode (fee per gas driven above 2e16 by real full blocks, then calls whose maxFee leaves just under one gas unit)"
 	var cases []c15case
 	if c.Replay != "" {
 		b, err := os.ReadFile(c.Replay)
@@ -438,6 +439,9 @@ func runC15(c *hx.Ctx) error {
 		}
 		for i := 0; i < c.Scale(1, 4); i++ {
 			cases = append(cases, c15case{Seed: c.Rng.Int63(), Mode: "congest", N: 4})
+		}
+		for i := 0; i < c.Scale(2, 12); i++ {
+			cases = append(cases, c15case{Seed: c.Rng.Int63(), Mode: "block", N: c.Scale(60, 150)})
 		}
 	}
 	for _, cs := range cases {
@@ -498,6 +502,9 @@ func runCase(c *hx.Ctx, cs c15case) error {
 	}
 	if cs.Mode == "fuzz" {
 		return cc.runFuzz()
+	}
+	if cs.Mode == "block" {
+		return cc.runBlock(step)
 	}
 	return cc.runShadow()
 }
